@@ -595,7 +595,26 @@ pub fn eval_init(c: &InitCase) -> Outcome {
 }
 
 fn pset_strategy() -> impl Strategy<Value = Vec<u8>> {
-    prop_oneof![6 => vec(any::<u8>(), 0..40), 2 => vec(any::<u8>(), 40..600), 1 => vec(any::<u8>(), 250..262), 1 => vec(any::<u8>(), 60000..65536)]
+    prop_oneof![
+        6 => vec(any::<u8>(), 0..40),
+        2 => vec(any::<u8>(), 40..600),
+        1 => vec(any::<u8>(), 250..262),
+        1 => vec(any::<u8>(), 60000..65536),
+        // dictionary prefixes / suffixes a caller's bytes may plausibly carry: an Annex B start code left in front of the
+        // unit (cut out of an elementary stream), a 4-byte length prefix, a box type, trailing zero bytes
+        2 => (0usize..8, vec(any::<u8>(), 1..40), any::<bool>()).prop_map(|(k, body, at_end)| {
+            let dict: [&[u8]; 8] = [&[0, 0, 1], &[0, 0, 0, 1], &[0, 0, 0, 9], b"avcC", b"hvcC", &[0, 0, 3], &[0, 0], &[0xff, 0xff, 0xff, 0xff]];
+            let mut v = Vec::new();
+            if at_end {
+                v.extend_from_slice(&body);
+                v.extend_from_slice(dict[k]);
+            } else {
+                v.extend_from_slice(dict[k]);
+                v.extend_from_slice(&body);
+            }
+            v
+        }),
+    ]
 }
 
 fn init_strategy() -> impl Strategy<Value = InitCase> {
